@@ -12,7 +12,7 @@ CONSTANTS
   VecLens = {1, 2}
   Bases = {6, 7, 0}
   CountDown = {0, 1}
-  CountUp = {1}
+  CountUp = {}
   DeltaModes = {"all", "short"}
   WithCcfb = TRUE
 INVARIANTS NamesSentPacket ExactTwccStatus ExactCcfbStatus IndependentOfNeighbours Complete ErrorIffTooFewDeltas
